@@ -10,7 +10,7 @@ uses names without white space).
   connect                              -> ok <id>
   msg <i> <type 1-4> <serial> <flags> <path> <iface> <member> <error_name> <reply_serial> <dest>
       <sender> <body> OP               -> OUT
-        OP = always | addmatch <iface> <member> <path> <destination> | exec <k> EFF*k
+        OP = always | addmatch <type 1-4|~> <iface> <member> <path> <destination> | exec <k> EFF*k
   disc <i> <k> EFF*k                   -> OUT
         EFF = own <name> <j> | unown <name> | sig <j> <member> <body> | bcast <member> <body>
 
@@ -63,8 +63,13 @@ def parseEffects : Nat → List String → Option (List Effect × List String)
 
 def parseOp : List String → Option (BusOp SimpleRule)
   | ["always"] => some .always
-  | ["addmatch", i, m, p, d] =>
-      some (.addMatch { iface := optName i, member := optName m, path := optName p, destination := optName d })
+  | ["addmatch", t, i, m, p, d] =>
+      if t == "~" then
+        some (.addMatch { iface := optName i, member := optName m, path := optName p, destination := optName d })
+      else do
+        let t ← mtypeOf? t
+        pure (.addMatch { mtype := some t, iface := optName i, member := optName m, path := optName p,
+                          destination := optName d })
   | "exec" :: k :: ts => do
       let k ← k.toNat?
       let (es, r) ← parseEffects k ts
